@@ -52,6 +52,10 @@ SIGMA_MAIN = [w for w, _ in WORDS] + SEPS + RAW
 SIGMA = SIGMA_MAIN + ODD
 SIGMA_WORDS = [w for w, _ in WORDS][:6] + ["{C\\dd}", " ", ","]
 _CASE = dict(WORDS)
+# words by Unicode case class: a letter without case (CJK), a cased character that is not a letter (small roman
+# numeral, feminine ordinal), a title-case letter, a caseless digit-like character; judged by the transcription, whose
+# rule is the implementation's documented one (first letter at depth 0: upper case if isupper(), else lower case)
+SIGMA_CLASS = ["AA", "bb", "\u4e2d", "\u2177", "\u01c5", "\xaa", " ", ","]
 
 
 def bounds(tier):
@@ -62,6 +66,8 @@ def bounds(tier):
         "main_alphabet_max_len": 5 if tier == "quick" else 6,
         "word_alphabet_max_len": 7 if tier == "quick" else 8,
         "word_alphabet": SIGMA_WORDS,
+        "case_class_alphabet": SIGMA_CLASS,
+        "case_class_max_len": 6 if tier == "quick" else 7,
         "deviation_bases": ["".join(b) for b in BASES],
         "deviation_bound": 2 if tier == "quick" else 3,
     }
@@ -74,6 +80,7 @@ def shards(tier):
     out += [("main", s) for s in seq_shards(SIGMA_MAIN, n, min_len=n)]
     # deeper over words and the main separators only: up to 4 (quick) / 5 (thorough) words in every case pattern
     out += [("words", s) for s in seq_shards(SIGMA_WORDS, 7 if tier == "quick" else 8, min_len=6 if tier == "quick" else 7, prefix_len=3)]
+    out += [("class", s) for s in seq_shards(SIGMA_CLASS, 6 if tier == "quick" else 7)]
     out += [("mw", 0), ("mw", 1), ("mw", 2), ("leak", 0)]
     out += [("ball", b, k, st, n) for (_, b, k, st, n) in spaces.ball_shards(len(BASES), 2 if tier == "quick" else 3)]
     return out
@@ -357,6 +364,10 @@ def run_shard(shard, tier, acc):
     elif kind == "words":
         for toks in seq_iter(SIGMA_WORDS, shard[1]):
             check_name("".join(toks), acc, toks)
+    elif kind == "class":
+        for toks in seq_iter(SIGMA_CLASS, shard[1]):
+            acc.count("case_class_names")
+            check_name("".join(toks), acc)  # (no designed case: the transcription alone judges)
     elif kind == "ball":
         for toks in spaces.ball_iter(BASES[shard[1]], SIGMA, shard):
             acc.count("deviation_names")
